@@ -661,11 +661,17 @@ def _balance(ctx, p, r_bal):
                     continue
                 n = next(iter(terms))
                 from_second = lambda ts: any(m[0] == 'call' and m[3] in second_sites for m in walk(ts))
-                if set(tmap.keys()) == {'0'} and n[0] == 'call' and n[1] == 'std::cmp::PartialEq::eq' and from_second(n[2][0]):
-                    # compared with the Reached variant
+                neg = False
+                while n[0] == 'unop' and n[1] == 'Not' and len(n[2]) == 1:
+                    n = next(iter(n[2]))
+                    neg = not neg
+                if set(tmap.keys()) == {'0'} and n[0] == 'call' and n[1] in ('std::cmp::PartialEq::eq', 'std::cmp::PartialEq::ne') and \
+                        from_second(n[2][0]):
+                    # compared with the Reached variant (`== Reached` on the true edge, `!= Reached` on the false edge)
                     rhs_ok = any('Reached' in str(m) or m[0] == 'const' for m in walk(n[2][1]))
                     if rhs_ok:
-                        reached_edges.add((sb, other))
+                        on_true = (n[1].endswith('::eq')) != neg
+                        reached_edges.add((sb, other if on_true else tmap['0']))
                 elif n[0] == 'discr' and from_second(n[1]) and all(x[0] == 'field' for x in n[1]):
                     # `match extend(..) { Some((ExtendResult::Reached, i)) => .. }`: the edge of the Reached variant
                     for ename, adt in b.crate.adts.items():
